@@ -826,6 +826,43 @@ Proof.
       eapply led_equiv; [|exact (led_trans _ _ _ _ _ _ _ (led_trans _ _ _ _ _ _ _ (led_trans _ _ _ _ _ _ _ L1 L2) L3) L4)]. led_arith.
 Qed.
 
+(** one iteration of removeWithName's loop with renameChildTo's callback, as a state function *)
+Definition rwn_iter (n nm tgt newnm r : nat) (s : st) : st :=
+  let pn := get_node B s n in
+  let cur := match alookup Nat.eqb nm (pn_refs pn) with Some l => l | None => [] end in
+  let s1 := set_node B n (pn_with_refs pn (aset Nat.eqb nm (remove_nat r cur) (pn_refs pn)) (adel Nat.eqb r (pn_names pn))) s in
+  if (fr_refs (gref s1 r) <=? 0)%Z then s1 else rename_cb B bstep tgt newnm r (hold B r s1).
+
+(** the loop again, carrying an arbitrary property [P] of (state, remaining refs) that one iteration preserves *)
+Lemma rwn_loop_gen n nm tgt newnm (P : st -> list nat -> Prop) d m : forall held s,
+  (forall r rest s0, FInv s0 d -> 0 < hc s0 tgt -> P s0 (r :: rest) -> P (rwn_iter n nm tgt newnm r s0) rest) ->
+  FInv s d -> 0 < hc s tgt -> P s m ->
+  P (snd (rwn_loop B n nm (Some (rename_cb B bstep tgt newnm)) m held s)) [].
+Proof.
+  induction m as [|r m IH]; intros held s Hit Inv Ht HP; cbn [rwn_loop]; [exact HP|]. cbv zeta.
+  pose proof (Hit r m s Inv Ht HP) as HP1. unfold rwn_iter in HP1. cbv zeta in HP1.
+  set (s1 := set_node B n _ s) in *.
+  assert (SC1 : same_life s s1) by apply sl_set_node.
+  destruct (sl_ok s s1 d SC1 Inv) as (I1 & L1).
+  assert (Ht1 : 0 < hc s1 tgt) by (eapply led_hc_pos; [exact L1 | lia | reflexivity]).
+  unfold try_incref.
+  destruct (Z.leb_spec (fr_refs (gref s1 r)) 0) as [Le|Gt].
+  - apply IH; auto.
+  - assert (Lr : r < length (s_refs B s1)).
+    { destruct (Nat.lt_ge_cases r (length (s_refs B s1))); auto. unfold get_ref in Gt. rewrite nth_overflow in Gt by auto. cbn in Gt. lia. }
+    change (with_held B (r :: s_held B (incref B r s1)) (incref B r s1)) with (hold B r s1).
+    assert (I2 : FInv (hold B r s1) d).
+    { split; [apply (hold_inv_live B s1 d r (proj1 I1) Lr Gt)|]. split; [|apply I1]. unfold hold. apply K_with_held, K_incref; [apply I1|].
+      unfold live. apply Z.ltb_lt. exact Gt. }
+    assert (L2 : led [r] [] s1 (hold B r s1)).
+    { split; [intro; auto|]. unfold RefStep.hc, hold; cbn. split; intros; rewrite !cnt_cons, !cnt_nil; lia. }
+    assert (Hr2 : 0 < hc (hold B r s1) r) by (eapply led_hc_pos; [exact L2 | rewrite cnt_cons, ind_same; lia | reflexivity]).
+    assert (Ht2 : 0 < hc (hold B r s1) tgt) by (eapply led_hc_pos; [exact L2 | lia | reflexivity]).
+    destruct (rename_cb_ok tgt newnm r (hold B r s1) d I2 Hr2 Ht2) as (I3 & L3).
+    assert (Ht3 : 0 < hc (rename_cb B bstep tgt newnm r (hold B r s1)) tgt) by (eapply led_hc_pos; [exact L3 | lia | reflexivity]).
+    apply IH; auto.
+Qed.
+
 Lemma release_all_ok l : forall s d,
   FInv s d -> (forall q, cnt l q <= hc s q) ->
   FInv (release_all B bstep l s) d /\ led [] l s (release_all B bstep l s).
